@@ -576,7 +576,7 @@ pub fn analyze(sc: &Scenario, out: &RunOut) -> Analysis {
                 completed_all.insert(*id);
                 know[*node].insert(*id);
             }
-            Ev::QryE { node, port, id, replies } => {
+            Ev::QryE { node, port, id, replies, partial } => {
                 pending_sends.remove(id);
                 let val = match log.iter().find(|e| matches!(e, Ev::QryS { id: i2, .. } if i2 == id)) {
                     Some(Ev::QryS { val, .. }) => *val,
@@ -587,7 +587,8 @@ pub fn analyze(sc: &Scenario, out: &RunOut) -> Analysis {
                     .into_iter()
                     .filter(|(nd, _)| nstate(spec, *nd) != NState::Dropped)
                     .collect();
-                if *replies != exp {
+                let matches = if *partial { exp.starts_with(replies) } else { *replies == exp };
+                if !matches {
                     viol!("replies", "query {} by node {} returned {:?}, expected {:?}", id, node, replies, exp);
                 }
                 if let Some(s) = sends.get_mut(id) {
